@@ -11,6 +11,8 @@ WATCHDOG = {'quick': 900, 'thorough': 3 * 3600}
 
 
 def main():
+    import logging
+    logging.getLogger('mpire').setLevel(logging.ERROR)
     ap = argparse.ArgumentParser()
     ap.add_argument('prop')
     ap.add_argument('--tier', default=os.environ.get('VERIF_TIER', 'quick'), choices=['quick', 'thorough'])
